@@ -131,6 +131,16 @@ class CallMixin(ExprMixin):
                     self.run_hook(s, h, e)
         return res
 
+    def is_coroutine_creation(self, con, node):
+        if self.spec or getattr(self, "awaited_call", None) is node:
+            return False
+        try:
+            from . import source
+            fn = source.module(con.module).func(con.fname)
+        except Exception:
+            return False
+        return isinstance(fn, ast.AsyncFunctionDef)
+
     def call_occurrence(self, node, ftext):
         """index of this call among the calls with the same callee text, in source order of the function under contract"""
         tab = getattr(self, "_call_occ", None)
@@ -259,6 +269,14 @@ class CallMixin(ExprMixin):
                 return self.future_method(st, recv, th.name, args, kw, node)
             if isinstance(rt, Ref):
                 con = C.BY_METHOD.get((rt.cls, th.name))
+                cm0 = self.find_call_model(ftext) if con is not None else None
+                if cm0 is not None:
+                    # the caller's contract deliberately abstracts this call (listed as trusted) although the callee
+                    # has a contract of its own, e.g. because the callee's preconditions are caller-history facts
+                    return self.apply_model(st, cm0, recv, args, kw, node, ftext)
+                if con is not None and self.is_coroutine_creation(con, node):
+                    # `f(...)` of a coroutine function without `await` only creates the coroutine object: nothing runs
+                    return [(st, V(PYOBJ, PyThing("coroutine", qual=con.qual)))]
                 if con is not None:
                     return self.apply_contract(st, con, recv, args, kw, node)
                 cm = self.find_call_model(ftext, "%s.%s" % (rt.cls, th.name))
@@ -275,7 +293,13 @@ class CallMixin(ExprMixin):
             if cm is not None:
                 return self.apply_model(st, cm, recv, args, kw, node, ftext)
             if isinstance(rt, Enum) or rt == PYOBJ and recv.t.kind == "enumcls":
-                con = C.BY_FUNC.get((self.module.dotted, "%s.%s" % (recv.t.name, th.name))) if rt == PYOBJ else None
+                ctx = getattr(self, "spec_ctx", None)
+                mods = [ctx[1].dotted] if (ctx and self.spec) else []
+                mods.append(self.module.dotted)
+                con = None
+                if rt == PYOBJ:
+                    for md in mods:                 # a callee's clause names the enum of *its* module
+                        con = con or C.BY_FUNC.get((md, "%s.%s" % (recv.t.name, th.name)))
                 if con is not None:
                     return self.apply_contract(st, con, None, args, kw, node)
             raise Unsupported("method %s on %s (line %s)" % (th.name, rt, self.cur_line))
@@ -638,7 +662,7 @@ class CallMixin(ExprMixin):
             if recv is not None:
                 env[pos[0]] = recv
             elif pos[0] == "cls":
-                env["cls"] = V(PYOBJ, PyThing("selfcls", name=con.fname.split(".")[0]))
+                env["cls"] = V(PYOBJ, PyThing("selfcls", name=con.fname.split(".")[0], module=con.module))
             pos = pos[1:]
         for n, v in zip(pos, args):
             env[n] = v
